@@ -20,15 +20,16 @@ type fakeObj struct {
 
 // fakeS3 implements S3Interface and records what it is asked.
 type fakeS3 struct {
-	objs            []fakeObj
-	failPut         bool
-	failGet         bool
-	failBody        bool
-	lastPutBucket   string
-	lastPutKey      string
-	lastGetBucket   string
-	lastGetKey      string
-	puts, gets      int
+	objs          []fakeObj
+	failPut       bool
+	failGet       bool
+	failBody      bool
+	chunk         int // > 0: GetObject reports ContentLength and streams the body in pieces of this size
+	lastPutBucket string
+	lastPutKey    string
+	lastGetBucket string
+	lastGetKey    string
+	puts, gets    int
 }
 
 var errFake = errors.New("fake s3: injected error")
@@ -64,8 +65,36 @@ func (f *fakeS3) GetObjectWithContext(ctx aws.Context, in *awss3.GetObjectInput,
 	if f.failBody {
 		return &awss3.GetObjectOutput{Body: &failingBody{}}, nil
 	}
+	if f.chunk > 0 {
+		// what a real GetObject gives: the object's size, and a body that arrives in pieces
+		n := int64(len(f.objs[i].body))
+		return &awss3.GetObjectOutput{ContentLength: &n, Body: &chunkBody{b: f.objs[i].body, chunk: f.chunk}}, nil
+	}
 	return &awss3.GetObjectOutput{Body: io.NopCloser(bytes.NewReader(f.objs[i].body))}, nil
 }
+
+// chunkBody delivers at most chunk bytes per Read (a network stream), then io.EOF.
+type chunkBody struct {
+	b          []byte
+	pos, chunk int
+}
+
+func (c *chunkBody) Read(p []byte) (int, error) {
+	if c.pos >= len(c.b) {
+		return 0, io.EOF
+	}
+	n := c.chunk
+	if n > len(p) {
+		n = len(p)
+	}
+	if n > len(c.b)-c.pos {
+		n = len(c.b) - c.pos
+	}
+	copy(p, c.b[c.pos:c.pos+n])
+	c.pos += n
+	return n, nil
+}
+func (c *chunkBody) Close() error { return nil }
 
 func (f *fakeS3) PutObjectWithContext(ctx aws.Context, in *awss3.PutObjectInput, opts ...request.Option) (*awss3.PutObjectOutput, error) {
 	f.puts++
@@ -118,6 +147,7 @@ func HarnessC18s() {
 
 	switch verifChoose("scenario", 4) {
 	case 0:
+		fake.chunk = verifChoose("chunk", verifBound("LMAX")+1) // 0: one in-memory reader without ContentLength
 		verifAssert("C18.s3.store.err", p.Store(vctx, name, b) == nil)
 		verifAssert("C18.s3.put-addresses-prefix+name-in-bucket", verifAnd(verifStrEq(fake.lastPutBucket, bucket), verifStrEq(fake.lastPutKey, wantKey)))
 		verifAssert("C18.s3.put-body-is-the-bytes", len(fake.objs) == 1 && verifStrEq(string(fake.objs[0].body), string(b)))
